@@ -57,13 +57,23 @@ def _values(fn, rng):
         for e in reversed(s): st.insert(0, p); p *= e
         return [[rng.randrange(e) for e in s], st]
     if fn == "bshape":
-        t = _shape(rng, rng.randint(1, 4))
+        t = _shape(rng, rng.randint(1, 4), 1, 6)
         def stretch():
             x = [1 if rng.random() < 0.4 else e for e in t]
             return x[rng.randint(0, len(x) - 1):]
+        if len(t) >= 2 and rng.random() < 0.5:
+            # "cross" pattern: each operand is 1 exactly where the other is large (the result exceeds both operands' extents
+            # on some axis, which is where bounds inherited from ONE operand show)
+            t = [max(e, 2) for e in t]
+            m = [rng.random() < 0.5 for _ in t]
+            if all(m) or not any(m): m[0] = not m[0]
+            return [[1 if k else e for e, k in zip(t, m)], [e if k else 1 for e, k in zip(t, m)]]
         return [stretch(), stretch()]
     if fn == "transpose":
         s = _shape(rng, rng.randint(2, 4)); p = list(range(len(s))); rng.shuffle(p)
+        if len(s) >= 3 and rng.random() < 0.6:      # a permutation that is not its own inverse, distinct extents
+            p = p[1:] + p[:1] if [p[k] for k in p] == list(range(len(p))) else p
+            s = rng.sample(range(2, 7), len(s))
         return [s, p]
     if fn == "reshape":
         s = _shape(rng, rng.randint(1, 3)); n = 1
@@ -114,7 +124,7 @@ CALL = {"strides": "ix::compute_strides({0})", "product": "ix::product({0})", "r
         "expand_dims": "ix::shape_expand_dims({0}, {1})", "repeat": "ix::shape_repeat({0}, {1}, {2})",
         "pad": "ix::shape_pad({0}, {1})", "concat": "ix::shape_concatenate({0}, {1}, {2})"}
 
-LIST_KINDS = ["vec", "veci", "arr", "sv", "uv", "tup", "raw", "ct", "cl"]
+LIST_KINDS = ["vec", "veci", "arr", "sv", "svt", "uv", "tup", "raw", "ct", "cl"]
 
 
 def _ct(v):
@@ -129,6 +139,7 @@ def _lit(kind, v, rng, rawdecl):
     if kind in ("vec", "veci"): return "std::vector<%s>{%s}" % (T, body)
     if kind == "arr": return "std::array<%s,%d>{%s}" % (T, len(v), body)
     if kind == "sv": return "SV<%s>({%s})" % (T, body)
+    if kind == "svt": return "SVN<%s,%d>({%s})" % (T, max(len(v), 1), body)      # capacity == length (as a hybrid-shape ndarray has)
     if kind == "uv": return "UV<%s>({%s})" % (T, body)
     if kind == "tup": return "nmtools_tuple{%s}" % ",".join("(%s)%d" % (T, x) for x in v)
     if kind == "ct": return "nmtools_tuple{%s}" % ",".join(_ct(x) for x in v)
@@ -152,7 +163,11 @@ def _rows(fn, vals, rng):
     nlists = sum(1 for v in vals if isinstance(v, list))
     combos = [(k,) * nlists for k in LIST_KINDS]
     if nlists == 2:
-        combos += [("vec", "arr"), ("arr", "ct"), ("ct", "vec"), ("arr", "cl"), ("cl", "vec"), ("sv", "tup")]
+        # mixed pairs: the result-type inference of the library depends on the PAIR of kinds (run-time x constant, bounded x
+        # constant, clipped x constant, ...) so every pairing of a "static knowledge" family with another is instantiated
+        combos += [("vec", "arr"), ("arr", "ct"), ("ct", "vec"), ("arr", "cl"), ("cl", "vec"), ("sv", "tup"),
+                   ("sv", "ct"), ("ct", "sv"), ("cl", "ct"), ("ct", "cl"), ("uv", "ct"), ("tup", "ct"), ("ct", "arr"), ("sv", "arr"),
+                   ("svt", "ct"), ("ct", "svt"), ("svt", "arr"), ("svt", "cl")]
     if nlists == 0:
         combos = [("rt",), ("ct",)]
     for combo in combos:
@@ -204,6 +219,7 @@ template <typename R> static std::string sh(const R& r) {
 }
 #define ROW(name, expr) try { s += std::string(name) + "=" + sh(expr) + ";"; } catch (std::exception& e_) { s += std::string(name) + "=trap-exception;"; }
 template <typename T> static nm::utl::static_vector<T,8> SV(std::initializer_list<T> l){ nm::utl::static_vector<T,8> a; a.resize(l.size()); size_t i=0; for (auto x: l) a[i++]=x; return a; }
+template <typename T, size_t N> static nm::utl::static_vector<T,N> SVN(std::initializer_list<T> l){ nm::utl::static_vector<T,N> a; a.resize(l.size()); size_t i=0; for (auto x: l) a[i++]=x; return a; }
 template <typename T> static nm::utl::vector<T> UV(std::initializer_list<T> l){ nm::utl::vector<T> a; a.resize(l.size()); size_t i=0; for (auto x: l) a[i++]=x; return a; }
 '''
 
@@ -215,7 +231,7 @@ def _generate(seed, tier):
     nsets = 6 if tier == "quick" else 24
     cases = []      # (fn, vals, rows)
     for fn in FUNCS:
-        for _ in range(nsets):
+        for _ in range(nsets * (2 if fn in ("bshape", "transpose") else 1)):
             vals = _values(fn, rng)
             cases.append((fn, vals, _rows(fn, vals, rng)))
     return cases
@@ -301,7 +317,7 @@ def classify(line, impl, spec, model):
     fs = dict(x.split("=", 1) for x in spec.strip().strip(";").split(";") if "=" in x)
     bad = [k for k in fs if fi.get(k) != fs[k]]
     if (" S:remove_dims " in line and line.rstrip().endswith("I:1") and bad
-            and all(fi.get(k) == "trap-exception" and k.split(".")[0] in ("arr", "tup", "raw", "cl") for k in bad)):
+            and all((fi.get(k) == "trap-exception" and k.split(".")[0] in ("arr", "tup", "raw", "cl")) or k.split(".")[0] == "svt" for k in bad)):
         return "remove_dims-runtime-keepdims-true-fixed-size-shape"
     if bad and all(("cl" in k.split(".")[0].split("-")) for k in bad):
         return "clipped-kind-clamps:" + line.split(" ")[2][2:]
